@@ -139,9 +139,19 @@ Theorem raw_ops_history_deterministic : forall helper grn invMod powMod n e,
   1 < n -> (forall x y, helper ((x * y) mod n) mod n = (helper x * helper y) mod n) ->
   blind_ok helper n (powMod (invMod (grn 2 n) n) e n) (grn 2 n) ->
   forall ms st, state_ok helper n st ->
-  exists st', run_ops helper grn invMod powMod n e st ms = Ok (map (fun m => helper m mod n) ms, st')
-              /\ state_ok helper n st'.
+  run_ops helper grn invMod powMod n e st ms =
+    Ok (map (fun m => helper m mod n) ms, iter_pair grn invMod powMod n e (length ms) st)
+  /\ state_ok helper n (iter_pair grn invMod powMod n e (length ms) st).
 Proof. exact run_ops_spec. Qed.
+
+(* the state law along a history: one operation squares the pair (after drawing a fresh one when the object
+   is uninitialised); k operations on an initialised object give (b^(2^k), u^(2^k)) mod n *)
+Theorem blinding_state_law : forall grn invMod powMod n e,
+  1 < n ->
+  (forall k b u, (forall j, (j < k)%nat -> sq_iter n j b <> 0) ->
+     iter_pair grn invMod powMod n e k (b, u) = (sq_iter n k b, sq_iter n k u)) /\
+  (forall k x, sq_iter n k x mod n = x ^ (2 ^ Z.of_nat k) mod n).
+Proof. exact blinding_state_law_all. Qed.
 
 Theorem decrypt_independent_of_blinding : forall helper grn invMod powMod n e,
   1 < n -> (forall x y, helper ((x * y) mod n) mod n = (helper x * helper y) mod n) ->
